@@ -60,9 +60,9 @@ CHECKS["C19"] = ("migsim", "fault_enumeration",
   "DESIGN.md §6 C19")
 
 LEDGER_TECH = "deterministic simulation: a real wtxmgr.Store on bbolt driven by the seeded event stream of a validating node over a generated transaction universe (mempool, blocks, rollbacks to every height, re-mining in other blocks, RBF, abandon, redelivery, leases on the simulated clock, reopen); reference ledger recomputed from facts after every event"
-CHECKS["C01"] = ("ledgersim", "exploration", LEDGER_TECH,
+CHECKS["C01"] = ("ledgersim+walletsim", "exploration", LEDGER_TECH,
   "After every event of a seeded chain-consistent history the store's Balance is compared with the ledger fold on a grid of 8 minimum-confirmation values x 5 sync heights around the maturity boundary, UnspentOutputs field by field (amount, block hash/height/time, coinbase flag, script) and OutputsToWatch by inclusion. The ledger keeps no running totals, so it cannot share the implementation's failure mode. Exploration over histories x graph shapes.",
-  "histories are restricted to what a validating node can emit (no two conflicting transactions in the mempool at once, parents before children); the wallet-level accessors (CalculateBalance/ListUnspent) are exercised by walletsim, not here. " + TB, "DESIGN.md §3.5, §6 C01")
+  "histories are restricted to what a validating node can emit (no two conflicting transactions in the mempool at once, parents before children); a second simulation (walletsim/c01w.go) runs the whole wallet over the C06 and C15 workloads (receipts on four address types and two accounts, coinbases near maturity, wallet-authored sends, locks, leases, reorgs, invalidated and reconsidered blocks, delivery lag, restarts) and after every operation, with the wallet idle, compares Wallet.CalculateBalance (9 minimum-confirmation values), Wallet.ListUnspent (5 ranges; amount, confirmations, script, account) and Wallet.CalculateAccountBalances with the statement evaluated over the wallet's OWN known transaction set (RangeTransactions + credits + inputs + ListLeasedOutputs). " + TB, "DESIGN.md §3.5, §6 C01")
 CHECKS["C02"] = ("ledgersim", "exploration", LEDGER_TECH + "; plus a second real store built directly from the final facts (path independence)",
   "The ledger's transition rules are the sentences of the statement, checked after every event (unconfirmed set, known set, credits); at the end of each run a fresh real store receives only the final facts and must agree with the store that lived through the connect / disconnect / reconnect-in-other-order history on balances, spendable outputs, unconfirmed set and details of every universe transaction.",
   "leases are not facts: the clock is advanced past every expiry before the two stores are compared. " + TB, "DESIGN.md §6 C02")
@@ -87,18 +87,18 @@ CHECKS["C10"] = ("ledgersim+addrsim", "fault_enumeration",
   "DESIGN.md §6 C10")
 
 ADDR_TECH = "deterministic simulation: a real waddrmgr.Manager on bbolt driven by seeded operation histories (next/extend/derive/lookup/mark-used, lock/unlock with right and near-miss passphrases, passphrase changes, accounts incl. imported xpub accounts and custom scopes, key/script imports, sync state, restarts and crash-restarts from commit images, deliberately rolled-back transactions, injected commit/write failures)"
-CHECKS["C03"] = ("addrsim", "exploration", ADDR_TECH + "; oracle = an independent BIP32 implementation (keyoracle) written in the harness",
+CHECKS["C03"] = ("addrsim+walletsim", "exploration", ADDR_TECH + "; oracle = an independent BIP32 implementation (keyoracle) written in the harness",
   "Every address object returned or looked up is compared with keyoracle (address, type, public key, derivation path and fingerprint, internal flag, account, imported/compressed flags); whenever the model says unlocked and not watch-only its private key must be the oracle's and a signature made with it must verify — for objects returned at issue time, looked up later, created while locked, created by Extend, and loaded after restart; indices per branch consecutive without repetition; imported keys and scripts byte-identical; a second wallet created from the same seed issues the same addresses. keyoracle is cross-checked against hdkeychain and BIP32 test vector 1 in its own unit test.",
-  "invalid BIP32 children cannot be produced; accounts created after wallet creation derive from the stored (padded) coin-type key, which the oracle models. " + TB, "DESIGN.md §3.5, §6 C03")
+  "invalid BIP32 children cannot be produced; accounts created after wallet creation derive from the stored (padded) coin-type key, which the oracle models. Wallet level (walletsim/acctw.go, a second simulation of this property): on simnet the whole wallet is driven through account-import previews (ImportAccountDryRun, always rolled back) and real imports of foreign account keys in seven key-version x address-type variants, NextAccount, addresses of own and imported accounts, dry-run sends, renames, wallet Lock / account operations while locked / Unlock, restarts and blocks; every address of an imported account must be child branch/index of the imported key in the account's own format with true derivation info, previews must show children of the previewed key, and PrivKeyForAddress while unlocked must return the key of exactly the address's public key. " + TB, "DESIGN.md §3.5, §6 C03")
 CHECKS["C04"] = ("addrsim+walletsim", "exploration", ADDR_TECH + "; multi-pattern scan of the database file image at commit boundaries for every secret the run produced",
   "The harness keeps the run's secret set (passphrases, seed, master/coin-type/account extended private keys raw and serialised, every derived and imported private key raw and WIF, imported secret scripts) and quasi-secret set (extended public keys, public keys, hash160s, address strings) from keyoracle; commit-boundary images (every commit in thorough, 1 in 8 plus all create/import/passphrase/account/convert commits in quick) are scanned, free pages included, and every stored field is additionally decrypted under the PUBLIC crypto key and searched for secrets. After ConvertToWatchingOnly on a copy the reopened copy must resolve every address, refuse Unlock and every private accessor, and hold no secret.",
   "patterns shorter than 16 bytes are not used (chance matches); no transaction is ever recorded in addrsim, so quasi-secrets must never appear. A second simulation (walletsim/c04w.go) converts through the wallet's own entry point Wallet.InitAccounts(scope, watchOnly=true, n) after issuing addresses / funding, reopens, and checks that every issued address is still known, no passphrase unlocks, no private accessor answers and the image holds none of the run's secrets. " + TB, "DESIGN.md §6 C04")
-CHECKS["C05"] = ("addrsim", "exploration", ADDR_TECH + "; access-control model over {locked, unlocked, watch-only} plus an overlay probe that hands out aliases of the live clear-text key buffers",
+CHECKS["C05"] = ("addrsim+walletsim", "exploration", ADDR_TECH + "; access-control model over {locked, unlocked, watch-only} plus an overlay probe that hands out aliases of the live clear-text key buffers",
   "After every operation every private-material accessor is probed on managed objects; in locked / watch-only state each must fail with the locked / watching-only error class; the current private passphrase always unlocks, eight near-miss variants never do and leave the manager locked; passphrase changes take effect immediately and after restart. Memory: aliases of master, crypto, account, address and script clear-text buffers and of the derived-key cache captured while unlocked must read all-zero after Lock and after a failed Unlock, and a fresh enumeration must report no live secret.",
-  "the memory probe is an add-only overlay file (harness/probes/waddrmgr); the Go garbage collector may keep copies the probe cannot see. " + TB, "DESIGN.md §6 C05")
-CHECKS["C08"] = ("addrsim", "exploration", ADDR_TECH + "; restart observer: a fresh manager opened on the latest commit image must answer ~200 queries exactly as the running one",
+  "the memory probe is an add-only overlay file (harness/probes/waddrmgr); the Go garbage collector may keep copies the probe cannot see. addrsim also places another caller's Unlock or Lock INSIDE an uncommitted passphrase change (between ChangePassphrase returning and its transaction committing). Wallet level (walletsim/acctw.go, a second simulation of this property): on simnet the whole wallet is driven through account-import previews (ImportAccountDryRun, always rolled back) and real imports of foreign account keys in seven key-version x address-type variants, NextAccount, addresses of own and imported accounts, dry-run sends, renames, wallet Lock / account operations while locked / Unlock, restarts and blocks; Wallet.Unlock with the current passphrase must always succeed (after previews, imports, restarts) and PrivKeyForAddress must be refused with the locked error while locked. " + TB, "DESIGN.md §6 C05")
+CHECKS["C08"] = ("addrsim+walletsim", "exploration", ADDR_TECH + "; restart observer: a fresh manager opened on the latest commit image must answer ~200 queries exactly as the running one",
   "After committed operations (every 4th in quick, all in thorough) and after every rolled-back one, the latest commit image is opened by a fresh waddrmgr.Open and both managers answer the same queries (addresses with all metadata, account properties, last addresses, names, used flags, sync state, block hashes); after a rolled-back transaction (dry-run pattern, closure error, injected commit or write failure) the next committed issuing call must return exactly the address a manager restarted on the image would issue.",
-  "addresses only ever derived inside a rolled-back transaction are not queried (they were never issued). " + TB, "DESIGN.md §6 C08")
+  "addresses only ever derived inside a rolled-back transaction are not queried (they were never issued). Wallet level (walletsim/acctw.go, a second simulation of this property): on simnet the whole wallet is driven through account-import previews (ImportAccountDryRun, always rolled back) and real imports of foreign account keys in seven key-version x address-type variants, NextAccount, addresses of own and imported accounts, dry-run sends, renames, wallet Lock / account operations while locked / Unlock, restarts and blocks; a manager freshly opened on the latest commit image must answer the wallet-level query set (scopes, every account's properties / name / key / schema / counts, last addresses, every issued address with its metadata, sync state) exactly as the running wallet, and the next address the running wallet issues must be the one the reopened copy issues. " + TB, "DESIGN.md §6 C08")
 
 NOT_APPLICABLE = [
  {"property_id": "C07", "reason": "pure function of its input (outputs, fee rate, coin list, change script): no schedule, clock, I/O, fault or history for a simulator to own; the deciding technique would be input enumeration/property-based testing, which is a different family (DESIGN.md §7)"},
